@@ -251,6 +251,8 @@ class ViralGen:
             choices += ['unary', 'scalar', 'scalar', 'binary', 'binary', 'binary']
             if len(node.meas) == 1 and last:
                 choices += ['cmp', 'bincmp']
+            if last and node.viral:
+                choices += ['analytic', 'analytic', 'join', 'join']
         if self.allow:
             choices = [c for c in choices if c in self.allow]
             if not choices:
@@ -363,6 +365,33 @@ class ViralGen:
             op, sxop = r.choice([('=', 'eq'), ('<', 'lt'), ('>=', 'ge')])
             return ('%s %s %s' % (a.name, op, b.name), '(vzip (ds %s) (ds %s) (bin %s hole hole2) "bool_var")' % (a.name, b.name, sxop),
                     N(ids=ids, meas=[('bool_var', 'Boolean')], viral=viral, numeric=False), k)
+        if k == 'analytic':
+            # op(DS over (partition by …)): the model answers identifiers + viral attributes only (measures: C06)
+            pick = r.sample(node.ids, r.randint(1, len(node.ids)))
+            pick = [i for i in node.ids if i in pick]
+            op = r.choice(['sum', 'min', 'max', 'avg', 'count'])
+            return ('%s(%s over (partition by %s))' % (op, X, ', '.join(i for i, _ in pick)),
+                    '(vpart %s (%s))' % (dsx, ' '.join(name_sx(i) for i, _ in pick)), N(meas=[]), k)
+        if k == 'join':
+            # inner_join of two datasets with disjoint measure names (the partner's measures renamed in a statement of its
+            # own): the model answers identifiers + viral attributes only (vzip without common measures)
+            cands = [o for o in nodes if o.ids and o.meas and o.viral and o.name != node.name and
+                     (set(o.ids) <= set(node.ids) or set(node.ids) <= set(o.ids))]
+            if not cands:
+                return None
+            o = r.choice(cands)
+            taken = {m for m, _ in node.meas}
+            ren = [(m, m + 'j') for m, _ in o.meas]
+            if any(n in taken for _, n in ren):
+                return None
+            pre = ('%s[rename %s]' % (o.name, ', '.join('%s to %s' % p for p in ren)),
+                   '(rename (ds %s) (%s))' % (o.name, ' '.join('(%s %s)' % (name_sx(a), name_sx(b)) for a, b in ren)))
+            left = r.random() < 0.5
+            ids = node.ids if len(node.ids) >= len(o.ids) else o.ids
+            names = [v for v, _ in node.viral] + [v for v, _ in o.viral if v not in [x for x, _ in node.viral]]
+            viral = [(v, dict(node.viral + o.viral)[v]) for v in names]
+            a, b = (X, '%(T)s') if left else ('%(T)s', X)
+            return ('inner_join(%s, %s)' % (a, b), '(vzip (ds %s) (ds %s) hole _)' % (a, b), N(ids=ids, meas=[], viral=viral), k, pre)
         if k in ('aggr', 'aggrc'):
             g = r.choice(['by', 'by', 'except', 'none'] if len(node.ids) > 1 else ['by', 'none', 'none'] if node.ids else ['none'])
             if g == 'none':
@@ -404,6 +433,10 @@ class ViralGen:
                     break
             if res is None:
                 res = (cur.name, '(ds %s)' % cur.name, Node(None, cur.ids, cur.meas, cur.viral, cur.numeric), 'assign')
+            if len(res) == 5:       # an operand prepared in a statement of its own
+                tname = 'T_%dj' % (i + 1)
+                stmts.append((tname, res[4][0], res[4][1]))
+                res = (res[0] % {'T': tname}, res[1] % {'T': tname}, res[2], res[3])
             vtl, sx, nn, op = res
             nn.name = 'DS_r' if last else 'T_%d' % (i + 1)
             stmts.append((nn.name, vtl, sx))
@@ -416,7 +449,7 @@ class ViralGen:
 def finish_case(spec, env, stmts, ops, res):
     rules = ' '.join(rule.vtl('R_' + v, v) for v, (_, rule) in spec.items())
     body = ' '.join('%s %s %s;' % (n, '<-' if n == 'DS_r' else ':=', v) for n, v, _ in stmts)
-    return {'spec': spec, 'env': env, 'stmts': stmts, 'ops': ops, 'vtl': rules + ' ' + body,
+    return {'spec': spec, 'env': env, 'stmts': stmts, 'ops': ops, 'vtl': rules + ' ' + body, 'viral_only': bool(ops) and ops[-1] in ('analytic', 'join'),
             'ids': [i for i, _ in res.ids], 'viral': [v for v, _ in res.viral], 'viral_types': dict(res.viral)}
 
 
